@@ -4,7 +4,7 @@ from hypothesis import strategies as st
 from vf.evidence import Outcome
 from vf.world import World, Violation
 from vf.stack import run_world, ceil10ms, same_outcome, echo
-from vf.gen import sized_list
+from vf.gen import sized_list, weighted
 
 ID = 'C01'
 LEVEL = 'exploration'
@@ -121,7 +121,7 @@ def jitter_plans(draw):
 
 def strategy(tier):
   base = plans(max_calls=8 if tier == 'quick' else 16)
-  return st.one_of(base, base, base, base, base, jitter_plans())
+  return weighted((5, base), (1, jitter_plans()))
 
 
 def check_calls(tr, prop=ID):
